@@ -129,7 +129,9 @@ def gen_regplan(rng, n, family=None, cfg=None):
             # date and therefore cut the path): it still has to be honoured when that upstream call executes in the run
             up = [u for u in ir.ancestors(preds) if u not in preds and ir.nodes[u].kind == "call" and rp.role.get(u) in ("plain", "stored")]
             if up:
-                ir.deps.append((rng.choice(sorted(up)), nd.id))
+                u_ = rng.choice(sorted(up))
+                ir.deps.append((u_, nd.id))
+                ir.meta.setdefault("redundant_deps", []).append((u_, nd.id))
         anc_reg = any(rp.role[p] in REGISTERED or reg_anc(p) for p in preds)
         has_reg_anc[nd.id] = anc_reg
         r = rng.random()
@@ -159,6 +161,14 @@ def gen_regplan(rng, n, family=None, cfg=None):
                 chain.append(s.id)
                 prev = s.id
             rp.dsrc_of[nd.id] = chain
+            if rng.random() < 0.25:
+                # the source also depends EXPLICITLY on a call further upstream of its writer (already an ancestor through other nodes)
+                up = [u for u in ir.ancestors([nd.id]) if u != nd.id and ir.nodes[u].kind == "call" and rp.role.get(u) in ("plain", "stored")]
+                if up:
+                    u_ = rng.choice(sorted(up))
+                    tgt_ = rng.choice(chain)
+                    ir.deps.append((u_, tgt_))
+                    ir.meta.setdefault("redundant_deps", []).append((u_, tgt_))
             sk2id[si] = rng.choice(chain)
         else:
             if rng.random() < p_store:
